@@ -187,6 +187,7 @@ class Report(object):
         self.assumptions = []
         self.not_decided = []
         self.analysed = {}
+        self.exhaustive = False  # set by a property module when it enumerated the finite space the property quantifies over
 
     def rule(self, rid, text):
         self.rules.append("%s: %s" % (rid, text))
@@ -278,7 +279,7 @@ def finish(report, tier, t0, level="other", explanation=""):
             "samples": report.samples[:40],
             "known_findings_reported": [v.key for v in known_hits],
             "not_decided": report.not_decided,
-            "exhaustive": False,
+            "exhaustive": bool(report.exhaustive),
             "repo": repo_dir(),
             "tree_hash": tree_hash(repo_dir()),
         },
